@@ -23,7 +23,35 @@ func parseThrift(w *W, sch *TSchema, po thrift.Options) *thrift.TypeDescriptor {
 	if fn == nil {
 		w.Failf("harness-idl", nil, "no function Call")
 	}
-	return fn.Request().Struct().FieldById(1).Type()
+	root := fn.Request().Struct().FieldById(1).Type()
+	syncAliases(w, sch.Root, root, map[*TStruct]bool{})
+	return root
+}
+
+// syncAliases cross-checks the member keys the harness believes it declared against what the real
+// parser reports (how an IDL literal is unescaped is the parser's business, not this harness').
+func syncAliases(w *W, t *TType, d *thrift.TypeDescriptor, seen map[*TStruct]bool) {
+	switch t.Kind {
+	case tSTRUCT:
+		if seen[t.St] {
+			return
+		}
+		seen[t.St] = true
+		for _, f := range t.St.Fields {
+			fd := d.Struct().FieldById(thrift.FieldID(f.ID))
+			if fd == nil {
+				w.Failf("harness-idl", nil, "field %d of %s missing in the parsed descriptor", f.ID, t.St.Name)
+			}
+			if f.Alias != "" && fd.Alias() != f.Alias {
+				f.Alias = fd.Alias()
+			}
+			syncAliases(w, f.T, fd.Type(), seen)
+		}
+	case tLIST, tSET:
+		syncAliases(w, t.Elem, d.Elem(), seen)
+	case tMAP:
+		syncAliases(w, t.Elem, d.Elem(), seen)
+	}
 }
 
 // writeOpts is the subset of options the requiredness truth table depends on.
@@ -247,6 +275,10 @@ type j2tOutcome struct {
 func runJ2T(w *W, cv *j2t.BinaryConv, desc *thrift.TypeDescriptor, js []byte, env j2tEnv, ctx context.Context) j2tOutcome {
 	in := w.AllocData(js, env.InPlace)
 	var res j2tOutcome
+	// logical-step budget: the re-entry loop between Go and the native state machine passes a yield per
+	// round (handleError); a conversion that does not converge is a violation, not a hung worker
+	w.World.StepLimit = w.World.Steps + uint64(300*len(js)) + 100000
+	defer func() { w.World.StepLimit = 0 }()
 	res.Facts = map[string]string{"api": "Do"}
 	if !env.DoInto {
 		out, err := cv.Do(ctx, desc, in.B)
